@@ -12,7 +12,7 @@ DECIDES = ('the unweighted-points / weights caches of the three rational classes
            'coordinate range and copy the slot (WS1), and paired converters are inverse element maps, (c*w)/w = c in normal form (WS2); '
            'rational property setters pass (points, weights) to the combiner in that order and sizes in (u, v, w) order (WS3, LY3) and store the result on every normally returning path (WS4); the '
            'weighted grid indexes its flat per-point weight list by both loop levels with the right stride (PP1); type converters copy '
-           'every defining property from the same-direction property of the source (CV1); no method stores a structure that may alias one of its arguments into the control point array or a cached view, so the views cannot drift apart through the caller\'s own lists (ES1, may-alias analysis); the unit-weight test of nurbs_to_bspline is two-sided (TOL1) and a single non-unit weight refuses the conversion (UW1).')
+           'every defining property from the same-direction property of the source (CV1); no method stores a structure that may alias one of its arguments into the control point array or a cached view, so the views cannot drift apart through the caller\'s own lists (ES1, may-alias analysis); the unit-weight test of nurbs_to_bspline is two-sided (TOL1) and a single non-unit weight refuses the conversion (UW1). the file variants of the 2-D converters apply the converter they are named after and save the array with matching sizes (FH1, LY3f).')
 NOT_DECIDED = 'invariance of evaluated points under a common positive weight factor; numerical round-trip to rounding; evaluation equality after type conversion (needs C01).'
 TECHNIQUE = 'static typestate dataflow + per-point map extraction in polynomial normal form + axis-tag rules + may-alias escape analysis'
 
@@ -46,6 +46,8 @@ def check(m, run):
     converters(m, run)
     tol_two_sided(m, run, [m.func('convert.nurbs_to_bspline')])
     no_escape(m, run)
+    from . import c14
+    c14.file_helpers(m, run)
     every_weight_tested(m, run)
     run.floor('WS1.weight-slot', 12, '6 converters x (coordinate map, domain, slot)')
     run.floor('CV1.convert-copies-same-axis', 20, '4 + 7 + 10 assignments of _convert')
